@@ -5,15 +5,17 @@
 # can never be served a stale overlay or binary.
 # usage: build.sh [maporder]
 set -euo pipefail
-cd /verif
+cd "$(dirname "$0")/.."
+VROOT=$(pwd)
 export GOFLAGS=-mod=mod GOPROXY=off GOSUMDB=off GOTOOLCHAIN=local
 REPO=${VERIF_REPO:-/repo}
 MODE=${1:-plain}
 mkdir -p .work/cache bin
 key=$( { find "$REPO" -name '*.go' -not -path '*/.git/*' -not -path '*/_fixtures/*' -print0 | sort -z | xargs -0 sha256sum; \
          sha256sum "$REPO/go.mod" "$REPO/go.sum"; \
-         find /verif/engine /verif/checks /verif/cmd -type f \( -name '*.go' -o -name '*.txt' \) -print0 | sort -z | xargs -0 sha256sum; \
-         sha256sum /verif/go.mod; echo "$MODE $REPO"; } | sha256sum | cut -c1-24)
+         find "$VROOT/engine" "$VROOT/checks" "$VROOT/cmd" "$VROOT/javagen" -type f \( -name '*.go' -o -name '*.txt' \) -print0 | sort -z | xargs -0 sha256sum; \
+         sha256sum "$VROOT/go.mod"; echo "$MODE $REPO"; \
+         if [ -n "${VERIF_BASE_OVERLAY:-}" ]; then cat "$VERIF_BASE_OVERLAY"; python3 -c "import json,sys;[sys.stdout.write(open(v).read()) for v in json.load(open(sys.argv[1]))['Replace'].values()]" "$VERIF_BASE_OVERLAY"; fi; } | sha256sum | cut -c1-24)
 dir=.work/cache/$key
 if [ ! -x "$dir/mc" ]; then
   tmp=$(mktemp -d .work/cache/tmp.XXXXXX)
@@ -35,4 +37,4 @@ if [ ! -x "$dir/mc" ]; then
   # keep the cache small: newest 4 entries
   ls -1dt .work/cache/*/ 2>/dev/null | tail -n +5 | xargs -r rm -rf
 fi
-echo "/verif/$dir/mc"
+echo "$VROOT/$dir/mc"
